@@ -65,6 +65,8 @@ class EventsOracle:
             if c.symbolic:
                 raise core.CutPath("step_cap", "more than %d steps with events" % self.max_calls)
             raise StepCap("more than %d steps with events" % self.max_calls)
+        # the flags integrate() hands to the detector are its own reading of the event functions' attributes: they must be the current ones
+        flags_ok = all(bool(is_terminal[i]) == bool(ev.is_terminal) and int(direction[i]) == int(getattr(ev, "direction", 0)) for i, ev in enumerate(events))
         rep = []
         for i, ev in enumerate(events):
             force = self.terminal_by is not None and k == self.terminal_by and ev.is_terminal
@@ -89,7 +91,7 @@ class EventsOracle:
         rep.sort(key=functools.cmp_to_key(cmp))
         terminate = False
         for j, r in enumerate(rep):
-            if r["ev"].is_terminal:
+            if bool(is_terminal[r["i"]]):         # (the detector cuts the list by the flags it was handed)
                 rep = rep[:j + 1]
                 terminate = True
                 break
@@ -112,7 +114,7 @@ class EventsOracle:
                 lookup_ok = sol.y_interpolants[idx_] is piece
             except Exception:
                 lookup_ok = False
-        self.calls.append(dict(k=k, t_prev=t_prev, t_next=t_next, reported=rep, terminate=terminate, piece=piece, lookup_ok=lookup_ok,
+        self.calls.append(dict(k=k, t_prev=t_prev, t_next=t_next, reported=rep, terminate=terminate, piece=piece, lookup_ok=lookup_ok, flags_ok=flags_ok,
                                n_pieces=len(sol.y_interpolants), rows_visible=len(self.system.t) if self.system is not None else None))
         idx = np.array([r["i"] for r in rep], dtype=np.int64)
         roots = c.array([r["root"] for r in rep])
@@ -201,6 +203,10 @@ def scenario(c, inst, props):
             st, r = run(a.integrate, T1, events=events, callback=[cb])
             if st != "ok":
                 return
+            if inst.get("flip_terminal"):
+                # between the calls the user changes an attribute of the (same) event function object
+                events[0].is_terminal = not events[0].is_terminal
+                has_terminal = any(e.is_terminal for e in events)
         st, r = run(a.integrate, events=events, callback=[cb])
         if oracle.faulted:
             # history: the event search of one step raised; the caller simply calls integrate() again with the same events
@@ -225,6 +231,17 @@ def scenario(c, inst, props):
     c.note("recorded_events", len(rec))
     c.note("oracle_reports", sum(len(call["reported"]) for call in oracle.calls))
     T = list(a.t)
+    if props & {"C07", "C09"}:
+        c.check("%s.detector_is_handed_the_current_event_attributes" % min(props & {"C07", "C09"}).lower(), all(call["flags_ok"] for call in oracle.calls),
+                info=dict(calls=[call["flags_ok"] for call in oracle.calls]))
+    if inst.get("flip_terminal"):
+        # (the single-stop assertions below do not apply to a history whose first call may already have stopped at the event)
+        last = oracle.calls[-1] if oracle.calls else None
+        if last is not None and last["terminate"]:
+            c.check("c09.flip.run_stops_at_the_event_that_is_terminal_now", c.le(absval(c, T[-1] - last["reported"][-1]["root"]), 64 * spans.EPS64 * 64))
+        elif last is not None and not infinite:
+            c.check("c09.flip.run_without_terminal_stop_reaches_the_target", c.le(absval(c, T[-1] - tf), 64 * spans.EPS64 * 64))
+        return
     if props & {"C07", "C08"}:
         c.check("%s.detector_is_handed_the_interpolant_of_the_step_under_examination" % min(props & {"C07", "C08"}).lower(),
                 all(call["piece"] is not None and call["lookup_ok"] for call in oracle.calls), info=dict(calls=[(call["piece"] is not None, call["lookup_ok"]) for call in oracle.calls]))
